@@ -127,10 +127,11 @@ def main():
          bs + [(1, 1, 1), (1, 2, 1), (2, 1, 1), (3, 3, 4)])
     case("set_of_bytes", lambda a, b, c: len(instr.setof([mk(a, b), mk(b, c), mk(a, b)])), [B, B, B], bs + [(1, 1, 1), (1, 2, 1)])
     def symkeys(a, b, c):
+        get = lambda d, k, df: d.get(k, df) if type(k) is bytes else instr.dict_get(d, k, df)  # noqa: E731  (the dispatcher routes only symbolic keys there)
         d = {}
         d[mk(a, 7)] = 1
-        d[mk(b, 7)] = instr.dict_get(d, mk(b, 7), 0) + 1
-        return instr.dict_get(d, mk(c, 7), 0), len(d)
+        d[mk(b, 7)] = get(d, mk(b, 7), 0) + 1
+        return get(d, mk(c, 7), 0), len(d)
     case("dict_symbolic_stored_keys", symkeys, [B, B, B], [(1, 1, 1), (1, 2, 1), (1, 2, 2), (1, 2, 3), (5, 5, 6)])
     # BytesIO
     def bio(a, b, n):
